@@ -213,7 +213,7 @@ def get_unescaped_str(string: str, qm: str) -> str:
     for i in string:
         if i == qm:
             out.append(f"\\{qm}")
-        elif ord(i) > 255:
+        elif ord(i) > 255 and not 0xD800 <= ord(i) <= 0xDFFF:
             out.append(i)
         else:
             out.append(ascii(i)[1:-1])
